@@ -9,6 +9,7 @@ from ..cfg import calls_at, node_exprs
 from ..core import Checker
 from ..loader import Func, norm, walk_expr, walk_own
 from ..prov import call_name, expand1, get_arg, scope_of
+from .generic_lints import run_all as _lints
 
 
 def _is_dir_atom(t, side: Optional[str] = None) -> bool:
@@ -26,6 +27,7 @@ def _is_dir_atom(t, side: Optional[str] = None) -> bool:
 
 
 def check(ck: Checker) -> None:
+    _lints(ck, "C08.aliasing", "index.diff", fresh_in=[ck.func("index.diff", "_diff")])
     prog = ck.prog
     ck.decided = [
         "C08.union: per level the traversal iterates the union of both listings' keys",
@@ -148,6 +150,7 @@ def check(ck: Checker) -> None:
                     who = [norm(x.args[0]) for x in gi if flows_from_calls(g, d, el, [x]) and x.args]
                     srcs.append(who)
                 ck.require(srcs[0] == ["old"] and srcs[1] == ["new"], "C08.descent", fn, d, "children of (old, new) are queued together in that order", f"queued children come from {srcs}, not from (old, new)", construct=f"{d.text()} / sides")
+    _unknown(ck, fn, g, descents)
     _roots(ck, fn, g)
     _classify(ck)
     _renames(ck)
@@ -316,3 +319,61 @@ def _renames(ck: Checker) -> None:
         keyalts = [norm(z) for z in expand1(prog, fn, key, levels=2)]
         dv = norm(c.args[0]) if c.args else "?"
         ck.require(any(f"{dv}.old.hash_info" in k for k in keyalts), "C08.renames", fn, n, "deletions are filed under deletion.old.hash_info", f"deletion table key is {keyalts}, not the deleted entry's old hash")
+
+
+
+def _unknown(ck: Checker, fn: Func, g, descents) -> None:
+    """A level is marked 'unknown' only because loading one of its two directories really failed: the flag
+    queued with a level is `old failed or new failed`, each taken from the listing helper, and the helper
+    sets it only in its load-error handler."""
+    from ..an import avoiding_path, value_alts
+    from ..prov import ITEM, is_marker
+
+    prog = ck.prog
+    gi = prog.func("index.diff", "_get_items")
+    n_q = 0
+    for d in descents:
+        for c in calls_at(d):
+            if not (c.args and isinstance(c.args[0], ast.Tuple) and len(c.args[0].elts) >= 3):
+                continue
+            n_q += 1
+            flag = c.args[0].elts[2]
+            ok, seen = False, []
+            for alt in [flag] + expand1(prog, fn, flag, levels=3):
+                seen.append(norm(alt)[:80])
+                parts = alt.values if isinstance(alt, ast.BoolOp) and isinstance(alt.op, ast.Or) else [alt]
+                sides = set()
+                for p_ in parts:
+                    if is_marker(p_, ITEM) and len(p_.args) == 2 and isinstance(p_.args[1], ast.Constant) and p_.args[1].value == 1 and isinstance(p_.args[0], ast.Call) and any(x.fq == gi.fq for x in ck.res.resolve(fn, p_.args[0])):
+                        a0 = get_arg(p_.args[0], gi, gi.pos_params[0], pos=0)
+                        sides.add(norm(a0) if a0 is not None else "?")
+                    else:
+                        sides.add("other:" + norm(p_)[:30])
+                if sides == {"old", "new"}:
+                    ok = True
+            ck.require(ok, "C08.descent", fn, d, "the queued 'unknown' flag is (old listing failed) or (new listing failed)",
+                       f"the 'unknown' flag queued with a directory level is {seen[:2]}, not the load-failure flags returned by the listing helper for the old and the new side: an empty or absent listing is mistaken for a failed load (or a failed load goes unnoticed) and the entries below are misclassified",
+                       construct=f"{norm(c)[:60]} / unknown flag")
+    ck.floor("C08.descent", n_q, 1, "queued (old items, new items, unknown) levels in the per-key loop")
+    # the helper: second component is truthy only from the load-error handler
+    gg = ck.cfg(gi)
+    n_r = 0
+    for r in gg.nodes.values():
+        if not (r.kind == "stmt" and isinstance(r.ast, ast.Return) and isinstance(r.ast.value, ast.Tuple) and len(r.ast.value.elts) == 2):
+            continue
+        n_r += 1
+        second = r.ast.value.elts[1]
+        sites = [(r, second)]
+        if isinstance(second, ast.Name):
+            from ..an import reaching_defs
+
+            sites = [(dn, getattr(dn.ast, "value", None)) for dn in reaching_defs(gg, r.id, second.id)]
+        for node, v in sites:
+            if v is None or (isinstance(v, ast.Constant) and not v.value):
+                continue
+            hs = {h.id for h in gg.nodes.values() if h.kind == "handler" and h.ast.type is not None and "DataIndexDirError" in norm(h.ast.type)}
+            in_handler = bool(hs) and avoiding_path(gg, node.id, lambda x: x.id in hs) is None
+            ck.require(in_handler and norm(v) == "with_unknown", "C08.descent", gi, node, "the listing helper reports 'unknown' only from its load-error handler (and only when asked to)",
+                       f"the listing helper can report unknown={norm(v)} outside the DataIndexDirError handler", construct=f"{node.text()[:50]} / unknown source")
+    if n_r == 0:
+        ck.fail("C08.descent", gi, gi.node, "the listing helper no longer returns (items, unknown): a failed directory load is not reported as such to the traversal", construct="_get_items / (items, unknown)")
